@@ -128,7 +128,21 @@ fn serve(mut sock: TcpStream, sc: Value, log: Arc<Mutex<Log>>) {
 
 fn params(sc: &Value) -> Result<TlsParameters, String> {
     let c = &sc["client"];
+    if c["history_root"].as_bool().unwrap_or(false) {
+        // earlier in the life of this process another configuration - same switches, but WITH the test CA as an added root - was built
+        let ca = std::fs::read(certs_dir().join("ca.pem")).unwrap();
+        let _earlier = TlsParameters::builder(c["domain"].as_str().unwrap_or("localhost").to_string())
+            .add_root_certificate(Certificate::from_pem(&ca).map_err(|e| format!("ca: {e}"))?)
+            .dangerous_accept_invalid_certs(c["accept_invalid_certs"].as_bool().unwrap_or(false))
+            .dangerous_accept_invalid_hostnames(c["accept_invalid_hostnames"].as_bool().unwrap_or(false))
+            .build_native().map_err(|e| format!("params: {e}"))?;
+    }
     let mut b = TlsParameters::builder(c["domain"].as_str().unwrap_or("localhost").to_string());
+    if c["add_other_root"].as_bool().unwrap_or(false) {
+        // a root certificate that has nothing to do with the peer's chain
+        let ca = std::fs::read(certs_dir().join("otherca.pem")).unwrap();
+        b = b.add_root_certificate(Certificate::from_pem(&ca).map_err(|e| format!("otherca: {e}"))?);
+    }
     if c["add_root"].as_bool().unwrap_or(false) {
         let ca = std::fs::read(certs_dir().join("ca.pem")).unwrap();
         b = b.add_root_certificate(Certificate::from_pem(&ca).map_err(|e| format!("ca: {e}"))?);
